@@ -178,6 +178,7 @@ def child_elems(items, guards):
 def run(report, p):
     # well-formedness comes first: a value written around the escaping builder makes the document invalid before any content model is looked at
     # (shared rule, evaluated before the templates are extracted so that its verdict stands even if the template of such a writer cannot be built)
+    _positional_inserts(report, p)
     neg_zero_slice_rule(report, p, prov(p), 'R11.9', [c_.qual for c_ in commands(p).values()], 'any command')
     include_rules(report, p, 'c10', ['R10.2'], 'every variable value is escaped by the XML builder: a chain or manifest with a raw `&` or `<` from a file or folder name is not well-formed, let alone valid')
     em, mdoc, cdoc, raw = documents(p)
@@ -582,6 +583,116 @@ def _is_ignore_spec(p, guard):
 def allowed_transient(p, tname):
     # 'new' is rewritten to 'verified' before serialisation (R11.6)
     return {"new"} if tname == "ActionAttributeType" else set()
+
+
+def _positional_inserts(report, p):
+    """R11.11: children placed by position (`element.insert(i, child)`) land where the schema's sequence wants them"""
+    r = report.rule(
+        "R11.11",
+        "a child that is put into an element BY POSITION (`element.insert(index, child)`) lands at the place the schema's sequence gives its tag: the index of the "
+        "first inserted child equals the number of children the element already has in front of that place (all of them unconditional), later ones follow one by one - an "
+        "index that is off (or counts from 1) puts e.g. an <author> behind <location>, and every manifest written with both options is invalid",
+        0,
+    )
+    xsd_dir = os.path.join(p.repo, "xsd")
+    schemas = [Schema(os.path.join(xsd_dir, "ASCMHL.xsd")), Schema(os.path.join(xsd_dir, "ASCMHLDirectory.xsd"))]
+
+    def tag_of(e, f, depth=0):
+        if isinstance(e, ast.Call):
+            fn = e.func
+            if isinstance(fn, ast.Attribute) and isinstance(fn.value, ast.Name) and fn.value.id == "E":
+                return fn.attr
+            if isinstance(fn, ast.Name) and fn.id == "E" and e.args and isinstance(e.args[0], ast.Constant):
+                return e.args[0].value
+            if depth < 2:
+                for t in p.resolve_call(e, f):
+                    if t in p.funcs:
+                        hf = p.funcs[t]
+                        for rt in [n for n in walk_no_nested(hf.node) if isinstance(n, ast.Return) and n.value is not None]:
+                            v = rt.value
+                            if isinstance(v, ast.Name):
+                                b = [a for a in walk_no_nested(hf.node) if isinstance(a, ast.Assign) and any(isinstance(t2, ast.Name) and t2.id == v.id for t2 in a.targets)]
+                                if len(b) >= 1:
+                                    v = b[0].value
+                            tg = tag_of(v, hf, depth + 1)
+                            if tg:
+                                return tg
+        return None
+
+    n = 0
+    for fq, f in sorted(p.funcs.items()):
+        if not f.module.name.endswith("_xml_parser"):
+            continue
+        for call in [c for c in walk_no_nested(f.node) if isinstance(c, ast.Call) and isinstance(c.func, ast.Attribute) and c.func.attr == "insert" and len(c.args) == 2 and isinstance(c.func.value, ast.Name)]:
+            owner = c_owner = call.func.value.id
+            binds = [a for a in walk_no_nested(f.node) if isinstance(a, ast.Assign) and any(isinstance(t, ast.Name) and t.id == owner for t in a.targets)]
+            if len(binds) != 1 or tag_of(binds[0].value, f) is None:
+                continue  # not an element built here (a plain list)
+            n += 1
+            r.instance(f, call, norm(call)[:70])
+            ctor = binds[0].value
+            parent_tag = tag_of(ctor, f)
+            kids = list(ctor.args[1:] if isinstance(ctor.func, ast.Name) else ctor.args)
+            lead = []
+            for a in kids:
+                if isinstance(a, ast.Starred):
+                    break
+                tg = tag_of(a, f)
+                if tg is None:
+                    if isinstance(a, ast.Constant) or not isinstance(a, ast.Call):
+                        continue  # text
+                    raise AnalysisError(f"{f.loc(call)}: a child of <{parent_tag}> in front of a positional insert could not be identified")
+                lead.append(tg)
+            child_tag = tag_of(call.args[1], f)
+            if child_tag is None:
+                raise AnalysisError(f"{f.loc(call)}: the element inserted by position could not be identified")
+            order = None
+            for sc in schemas:
+                for ct in sc.ctypes.values():
+                    if child_tag in ct.children and all(t in ct.children for t in lead):
+                        order = list(ct.children.keys())
+            if order is None:
+                raise AnalysisError(f"{f.loc(call)}: no schema type lists <{child_tag}> next to {lead}")
+            before = [t for t in lead if order.index(t) < order.index(child_tag)]
+            if before != lead:
+                raise AnalysisError(f"{f.loc(call)}: unconditional children {lead} do not all precede <{child_tag}> in the schema's order")
+            # other appends / inserts of children into the same element in front of this call make positions depend on run-time state
+            idx = call.args[0]
+            lp = next((a for a in _anc_nodes(call) if isinstance(a, ast.For)), None)
+            first = step = None
+            if isinstance(idx, ast.Constant) and isinstance(idx.value, int):
+                first, step = idx.value, 0
+            elif lp is not None and isinstance(lp.iter, ast.Call) and norm(lp.iter.func) == "enumerate" and isinstance(lp.target, ast.Tuple) and isinstance(lp.target.elts[0], ast.Name):
+                pos = lp.target.elts[0].id
+                start = 0
+                for k in lp.iter.keywords:
+                    if k.arg == "start":
+                        start = p.fold(k.value, f)
+                if len(lp.iter.args) > 1:
+                    start = p.fold(lp.iter.args[1], f)
+                if isinstance(start, int):
+                    from sa.absint import Evaluator as _Ev
+
+                    v0 = _Ev(lambda e, env: None, fq).eval(idx, {pos: start})
+                    v1 = _Ev(lambda e, env: None, fq).eval(idx, {pos: start + 1})
+                    if isinstance(v0, int) and isinstance(v1, int):
+                        first, step = v0, v1 - v0
+            if first is None:
+                raise AnalysisError(f"{f.loc(call)}: the insertion index `{norm(idx)}` could not be evaluated")
+            want = len(lead)
+            ok = first == want and step in (0, 1) and (step == 1 or lp is None)
+            r.check(ok, f, call, f"`{norm(call)[:70]}` puts the {'first ' if step else ''}<{child_tag}> at index {first} of <{parent_tag}>, which has {want} children in front of that place ({', '.join(lead)}): in the schema <{child_tag}> comes directly after them and before {[t for t in order if order.index(t) > order.index(child_tag)]}, so whenever one of those optional elements is present the <{child_tag}> lands behind it and the manifest does not validate", construct=f"{f.name}: <{child_tag}> inserted at index {first}, schema position {want}")
+    r.instance(None, None, f"{n} positional insert(s) into elements in the XML writers")
+    r.check(True, None, None, "")
+
+
+def _anc_nodes(n):
+    from sa.model import parent as _parent
+
+    x = _parent(n)
+    while x is not None:
+        yield x
+        x = _parent(x)
 
 
 def _xsd_pattern_matches(pat: str, text: str) -> bool:
